@@ -934,7 +934,7 @@ func c13Ckpt(c *Ctx) error {
 			case 3:
 				sizes = append(sizes, cr.Range(0, 600))
 			default:
-				sizes = append(sizes, []int{70000, 131073, 20000, 0, 2, 65536, 100000, 3000}[cr.Intn(8)])
+				sizes = append(sizes, []int{70000, 40000, 20000, 0, 2, 65536, 3000, 131073}[cr.Intn(7+cr.Intn(2))])
 			}
 		}
 		kind := 0 // RLE friendly bodies keep the case file small
@@ -1131,7 +1131,7 @@ func c13Frames(c *Ctx) error {
 		stream := buf.Bytes()
 		// truncations: every prefix for short streams, a sample around the frame boundaries otherwise
 		var cuts []int
-		if len(stream) <= 300 {
+		if len(stream) <= 150 || (c13Deep(c) && len(stream) <= 300) {
 			for p := 0; p <= len(stream); p++ {
 				cuts = append(cuts, p)
 			}
@@ -1158,6 +1158,9 @@ func c13Frames(c *Ctx) error {
 			}
 			add(0)
 			add(2)
+			for j := 0; j < 16; j++ {
+				add(cr.Intn(len(stream) + 1))
+			}
 		}
 		var cutS []string
 		nTrunc := 0
